@@ -38,12 +38,12 @@ CHECKS["C03"] = dict(
 CHECKS["C04"] = dict(
     jobs=[
         dict(pkg="internal/rtpbuffer", entry="HC04BufferHistory", params=dict(size=2, ops=3, fwd=3, back=6, rtx=0, csrc=0),
-             thorough=dict(params=dict(size=4, ops=4), timeout=3400)),
+             thorough=dict(params=dict(size=4, ops=3), timeout=3400)),
         dict(pkg="internal/rtpbuffer", entry="HC04BufferHistory", params=dict(size=2, ops=3, fwd=3, back=6, rtx=1, csrc=1),
-             thorough=dict(params=dict(size=4, ops=4), timeout=3400)),
+             thorough=dict(params=dict(size=4, ops=3), timeout=3400)),
     ],
     bounds=dict(quick="PacketFactoryCopy+RTPBuffer size 2, 3 sends (distinct numbers, fwd<=3/back<=6 incl. older than window, any base incl. wrap), payload 0..3 symbolic bytes, symbolic header fields, RTX off / RTX on with CSRC; caller scribbles its buffers after each send; one lookup with arbitrary number",
-                thorough="size 4, 4 sends"),
+                thorough="size 4, 3 sends (4 sends did not finish within 50 minutes)"),
     outside=["buffer sizes >4", "duplicate sequence numbers", "padding forms", "asynchronous resend goroutines and pool recycling under schedules", "responder interceptor wiring (NACK parsing)"],
     assumptions=["sync.Pool modelled as LIFO free list", "rtp sequencer start nondeterministic"],
 )
